@@ -122,6 +122,26 @@ def run(chk: common.Check, tier: str):
         for kf in common.known_findings("C05"):
             if kf.get("id") == "C05-falsy-explicit-action" and violations_in(ev):
                 chk.known(kf["what"])
+    # around the recorded finding: a rule whose explicit action is falsy "fails" with the cursor moved (the finding), but
+    # everything AROUND it must still behave: lookahead helpers restore the cursor whatever their operand returned, and
+    # no other method may fail with the cursor moved
+    fam = [("start: !a NAME NAME NEWLINE | NUMBER\na: NAME { None }\n", ["x y\n", "1\n"], {"a"}),
+           ("start: &a NAME NEWLINE | NUMBER\na: NAME { 0 }\n", ["x\n", "1\n"], {"a"}),
+           ("start: w=NAME !r NAME NEWLINE { [w] }\nr: n=NAME { False }\n", ["foo bar\n", "foo\n"], {"r"}),
+           ("start: !(a) NAME NEWLINE\na: NAME NAME { None }\n", ["x y\n", "x\n"], {"a", "_tmp_1"}),
+           ("start: [a] NAME NAME NEWLINE\na: NAME { [] }\n", ["x y\n"], {"a"})]
+    fres = rm.run_traced([{"grammar": g, "inputs": ins, "configs": ["q1", "q0", "v1"]} for g, ins, _ in fam])
+    for (g, ins, sites), rj in zip(fam, fres):
+        for one in rj.get("results", []):
+            for cfg, x in one["runs"].items():
+                chk.count()
+                for name, before, ok, after, la in (x.get("events") or []):
+                    if la and after != before:
+                        chk.violation(f"lookahead helper {name} moved the parser from {before} to {after} (operand with a falsy action)",
+                                      {"grammar": g, "tokens": one["tokens"], "configuration": cfg}, True)
+                    elif not la and not ok and after != before and name not in sites:
+                        chk.violation(f"{name}() failed at position {before} but left the parser at {after}",
+                                      {"grammar": g, "tokens": one["tokens"], "configuration": cfg}, True)
     monitor_shipped(chk, tier)
     chk.assumptions += ["explicit actions of the grammars under test evaluate to truthy values (pegen signals failure by a "
                         "falsy return value; an explicit action that is falsy after consuming is the recorded finding)"]
